@@ -27,6 +27,8 @@ structure Role where
   /-- `allowed_ip_sans_cidr`; empty = no restriction beyond `allow_ip_sans` -/
   allowedIPCIDRs : List CIDR := []
   allowedURISANs : List Str
+  /-- `allowed_serial_numbers`: which Subject serialNumber attributes the role permits (glob patterns; empty = none) -/
+  allowedSerials : List Str := []
   keyType : String
   keyBits : Nat
   (keyUsage extKeyUsage : List String)
@@ -53,6 +55,8 @@ structure CSR where
   exts : List CsrExt
   keyType : String
   keyBits : Nat
+  /-- the Subject serialNumber attribute of the CSR (empty = none) -/
+  serial : Str := []
   deriving Repr
 
 structure Req where
@@ -73,6 +77,8 @@ structure Req where
   /-- sign-verbatim without a role in the path -/
   noRole : Bool
   csr : Option CSR
+  /-- the `serial_number` request parameter (empty = not given) -/
+  serial : Str := []
   deriving Repr
 
 structure Env where
@@ -96,6 +102,8 @@ structure Cert where
   keyBits : Nat
   keyUsage : Nat
   extKeyUsage : List Nat
+  /-- Subject serialNumber attribute (empty = none) -/
+  subjSerial : Str := []
   deriving Repr
 
 inductive Res where
@@ -209,6 +217,7 @@ def verbatimRole (req : Req) (role : Role) : Role :=
                cnValidations := [str "disabled"] },
     allowIPSANs := true,
     allowedURISANs := [['*']],
+    allowedSerials := [['*']],
     keyType := "any", keyBits := 0,
     keyUsage := req.keyUsage, extKeyUsage := req.extKeyUsage,
     serverFlag := false, clientFlag := false, codeSigningFlag := false, emailProtectionFlag := false,
@@ -239,7 +248,18 @@ def addNames (acc : List Str × List Str) : List Str → Except String (List Str
 structure Names where
   cn : Str
   (dns emails : List Str)
+  serial : Str := []
   deriving Repr
+
+/-- the Subject serialNumber the certificate will carry: the `serial_number` parameter, else the CSR's -/
+def chosenSerial (req : Req) : Str :=
+  if !req.serial.isEmpty then req.serial else match req.csr with | some c => c.serial | none => []
+
+/-- `validateSerialNumber`: permitted by an entry of `allowed_serial_numbers` (a glob when it contains `*`, else equal) -/
+def serialAllowedIn (allowed : List Str) (sn : Str) : Bool :=
+  allowed.any fun a => !a.isEmpty && ((a.contains '*' && glob a sn) || a == sn)
+
+def serialAllowed (role : Role) (sn : Str) : Bool := serialAllowedIn role.allowedSerials sn
 
 /-- the common name: the CSR's when the role says so and it has one, else the `common_name` parameter -/
 def chosenCN (role : Role) (req : Req) : Str :=
@@ -270,9 +290,10 @@ def buildNames (role : Role) (req : Req) : Except String Names :=
   | .error e => .error e
   | .ok (dns, emails) =>
     if !cn.isEmpty && cnRefused role.names cn then .error "cn"
+    else if !(chosenSerial req).isEmpty && !serialAllowed role (chosenSerial req) then .error "serial"
     else if namesRefused role.names dns then .error "san"
     else if namesRefused role.names emails then .error "email"
-    else .ok { cn, dns, emails }
+    else .ok { cn, dns, emails, serial := chosenSerial req }
 
 /-- IP SANs -/
 def buildIPs (role : Role) (req : Req) : Except String (List String) :=
@@ -375,7 +396,8 @@ def finish (e : Env) (role : Role) (req : Req) (key : String × Nat) (n : Names)
     uris := sortBy strLe (match c? with | some c => c.uris | none => uris),
     keyType := key.1, keyBits := key.2,
     keyUsage := parseKeyUsages role.keyUsage,
-    extKeyUsage := extKeyUsages role }
+    extKeyUsage := extKeyUsages role,
+    subjSerial := (match c? with | some c => c.serial | none => n.serial) }
 
 def process (e : Env) (role0 : Role) (req : Req) : Res :=
   let role := if req.ep == .verbatim then verbatimRole req role0 else role0
